@@ -536,7 +536,7 @@ def check(plan):
                     probes["baseline_runs"] += 1
                     base = copy.deepcopy(plan)
                     base["faults"] = [f for f in plan["faults"] if (f.get("victim") or f.get("path")) not in nop
-                                      and f["kind"] in ("mkdir_race",)]
+                                      and f["kind"] in ("mkdir_race", "scandir_eacces")]
                     bw = build_world(base, drop=set(nop))
                     for f in plan["faults"]:
                         # blockers belong to the failing files: remove them from the baseline disk
